@@ -18,7 +18,7 @@ func init() {
 		Fn:          c16,
 		Level:       "exploration",
 		Builds:      []string{"default", "purego"},
-		Rule:        "histories over {Append, AppendArr (bulk, with all-zero values mixed in), AppendMany (crossing LowCardinality key widths), Reset, Prepare, Infer, EncodeColumn, WriteColumn+Flush, EncodeRawBlock, Reset+Decode(valid data, incl. reference-encoded LowCardinality with forced key widths), Reset+Decode(truncated), DecodeBlock through bound Results (0 rows with columns, 1, 2, 5 rows; no explicit Reset), SetInPlace (rows rewritten through exported column memory)} on one column object, checked after every step against a list-of-values model: Rows(), Row(i) for all i, and the reference decode of every encoding. Random histories of length <= 40 for every catalogue column and boxed random compositions; ColEnum re-inferred with renumbered / widened definitions and ColDateTime64 re-inferred with another precision / zone while still holding rows (Infer, Reset, Decode as DecodeResult does; then Append / Encode / Row / Type); exhaustive histories of length <= 4 (quick) / 5 (thorough) over a reduced alphabet for LowCardinality, Enum, String, Array, Map, Nullable, DateTime64. Non-trivial = >=2 encodes or a decode after use; distinct = (type, kind, history)",
+		Rule:        "histories over {Append, AppendArr (bulk, with all-zero values mixed in), AppendMany (crossing LowCardinality key widths), Reset, Prepare, Infer, EncodeColumn, WriteColumn+Flush, EncodeRawBlock, Reset+Decode(valid data, incl. reference-encoded LowCardinality with forced key widths), Reset+Decode(truncated), DecodeBlock through bound Results (0 rows with columns, 1, 2, 5 rows; no explicit Reset), SetInPlace (rows rewritten through exported column memory)} on one column object, checked after every step against a list-of-values model: Rows(), Row(i) for all i, and the reference decode of every encoding. Random histories of length <= 40 for every catalogue column and boxed random compositions; ColEnum re-inferred with renumbered / widened definitions and ColDateTime64 re-inferred with another precision / zone while still holding rows (Infer, Reset, Decode as DecodeResult does; then Append / Encode / Row / Type); a ColAuto target reused across valid, truncated and corrupted blocks and Resets; exhaustive histories of length <= 4 (quick) / 5 (thorough) over a reduced alphabet for LowCardinality, Enum, String, Array, Map, Nullable, DateTime64. Non-trivial = >=2 encodes or a decode after use; distinct = (type, kind, history)",
 		Assumptions: []string{"contract: no decode into a non-empty column (Reset precedes every decode); after a failed decode the next operation is Reset; Preparable columns are prepared before encoding"},
 		MinDistinct: 500,
 	}
@@ -451,6 +451,14 @@ func c16(r *core.Run) {
 			continue
 		}
 		c16EnumReinfer(r, ci)
+	}
+	// ColAuto bound as a target across valid and failing blocks
+	for k := 0; k < r.Pick(3000, 60000); k++ {
+		ci++
+		if !r.Take(ci) {
+			continue
+		}
+		c16AutoTarget(r, ci)
 	}
 	// ColDateTime64 meeting blocks of changing precision / zone while still filled
 	for k := 0; k < r.Pick(2000, 40000); k++ {
